@@ -37,13 +37,9 @@ Inductive gval :=
 Fixpoint lookup_field (n : N) (fs : list (N * gval)) : gval :=
   match fs with [] => GAbsent | (k, v) :: r => if k =? n then v else lookup_field n r end.
 
-(* what `m.X != 0` sees for a float: -0.0 equals 0 *)
-Definition zero_like (k : fkind) (z : Z) : bool :=
-  match k with
-  | FNum KFloat => ((z =? 0) || (z =? 2147483648))%Z
-  | FNum KDouble => ((z =? 0) || (z =? 9223372036854775808))%Z
-  | _ => (z =? 0)%Z
-  end.
+(* the "is this implicit-presence field unset" test: integers, bools and enums `m.X != 0`; floats
+   `math.Float32bits(m.X) != 0` (only +0 is the unset state; -0 is a value and is written) *)
+Definition zero_like (k : fkind) (z : Z) : bool := (z =? 0)%Z.
 
 Definition is_num_kind (k : fkind) : option skind :=
   match k with FNum s => Some s | FEnum => Some KInt32 | _ => None end.
